@@ -1,4 +1,4 @@
-use easy_error::{Error, ResultExt};
+use easy_error::{ensure, Error, ResultExt};
 use serde::{Deserialize, Serialize};
 
 use crate::access_log::AccessLog;
@@ -39,11 +39,20 @@ impl Default for IoParams {
     }
 }
 
+const MAX_BUFFER_SIZE: usize = 16 << 20;
+
 impl Config {
     pub async fn load(path: &str) -> Result<Self, Error> {
         let s = tokio::fs::read(path).await.context("read file")?;
         let s = String::from_utf8(s).context("parse utf8")?;
-        serde_yaml::from_str(&s).context("parse yaml")
+        let cfg: Config = serde_yaml::from_str(&s).context("parse yaml")?;
+        // the relay allocates this many bytes per direction (and a zero sized buffer reads as end of stream)
+        ensure!(
+            (1..=MAX_BUFFER_SIZE).contains(&cfg.io_params.buffer_size),
+            "ioParams.bufferSize must be between 1 and {}",
+            MAX_BUFFER_SIZE
+        );
+        Ok(cfg)
     }
 }
 
